@@ -90,6 +90,10 @@ def gen_cmdline(rng, env=None, kinds=None, force_opt=None, want=()):
     pool, _ = G.gen_pool(rng, m, k=2)
     argv = ['-f', repr(pool[0])] + m.argv() + G.field_args(rng, m, force=force_opt)
     argv += ['--output-cmdline', 'opt.txt']
+    if rng.random() < 0.2:
+        inc = float(repr(round(pool[1] - pool[0], 6)))
+        if pool[0] + 2 * inc > 0.2:
+            argv += ['--frequency-increment=%r' % inc, '--frequency-steps=%d' % rng.choice([2, 3])]
     if rng.random() < 0.3:
         argv += ['--output-basic-input', 'basic.in']
     if rng.random() < 0.2:
